@@ -766,3 +766,95 @@ func lookupBeforeLock(p *Prog, r *Reporter) {
 		r.Anchor("a call of World.lock")
 	}
 }
+
+// ---------- int arguments of query methods are not truncated ----------
+
+// queryIntParamsRangeChecked: in methods of Query, an `int` parameter reaches a conversion to a 32-bit type only where it is
+// known to be at most MaxUint32 (a dominating comparison with a constant, or a clamp): entity counts are 32 bits, so
+// a larger index or step is out of range for every query and must behave so — not like its value modulo 2^32.
+func queryIntParamsRangeChecked(p *Prog, r *Reporter) {
+	n := 0
+	for _, fn := range p.Funcs {
+		if fn.Pkg == nil || fn.Pkg.Pkg.Name() != "ecs" || typeName(recvType(fn)) != "Query" || fn.Blocks == nil {
+			continue
+		}
+		for _, par := range fn.Params {
+			bt, ok := par.Type().Underlying().(*types.Basic)
+			if !ok || bt.Kind() != types.Int {
+				continue
+			}
+			isPar := func(v ssa.Value) bool { return v == par }
+			edge := func(b *ssa.BasicBlock, k int) bool {
+				atom, holds, ok := edgeCond(b, k)
+				if !ok {
+					return false
+				}
+				rel, c, ok := boundOnEdge(atom, holds, isPar)
+				return ok && impliesAtMost(rel, c, 1<<32-1)
+			}
+			mf := &MustFlow{Fn: fn, EdgeGen: edge}
+			mf.Run()
+			factAtEnd := func(pred, succ *ssa.BasicBlock) bool {
+				if mf.Before(pred.Instrs[len(pred.Instrs)-1]) {
+					return true
+				}
+				for k, s := range pred.Succs {
+					if s == succ && edge(pred, k) {
+						return true
+					}
+				}
+				return false
+			}
+			for _, b := range fn.Blocks {
+				for _, ins := range b.Instrs {
+					cv, ok := ins.(*ssa.Convert)
+					if !ok {
+						continue
+					}
+					tt, ok := cv.Type().Underlying().(*types.Basic)
+					if !ok || !(tt.Kind() == types.Uint32 || tt.Kind() == types.Int32 || tt.Kind() == types.Uint16 || tt.Kind() == types.Uint8) {
+						continue
+					}
+					// does the parameter reach the operand (directly or through phis)?
+					bad := ""
+					reached := false
+					seen := map[ssa.Value]bool{}
+					var walk func(v ssa.Value, okHere bool)
+					walk = func(v ssa.Value, okHere bool) {
+						if seen[v] {
+							return
+						}
+						seen[v] = true
+						switch x := v.(type) {
+						case *ssa.Parameter:
+							if x == par {
+								reached = true
+								if !okHere {
+									bad = "the parameter reaches the conversion without an upper bound"
+								}
+							}
+						case *ssa.Phi:
+							for i, e := range x.Edges {
+								walk(e, factAtEnd(x.Block().Preds[i], x.Block()))
+							}
+						}
+					}
+					walk(cv.X, mf.Before(cv))
+					if !reached {
+						continue
+					}
+					n++
+					construct := fmt.Sprintf("%s converted to %s", par.Name(), tt.Name())
+					if bad == "" {
+						r.OK(p.FuncName(fn), construct, p.Pos(cv.Pos()), "the int parameter is known to be at most MaxUint32 wherever it reaches the conversion")
+					} else {
+						r.Bad(p.FuncName(fn), construct, p.Pos(cv.Pos()), bad+": on 64-bit platforms an argument of 2^32+i is treated as i (an out-of-range index returns an entity instead of panicking, a step beyond the end lands on an entity instead of exhausting the query)")
+					}
+				}
+			}
+		}
+	}
+	if n == 0 {
+		r.Anchor("a Query method converting an int parameter to a 32-bit type")
+	}
+}
